@@ -8,10 +8,18 @@
    pairs of the trie in [first, last], and report whether a key > last exists.  LeftEdgeChecked:
    FALSE = the code as it is: claims that omit present keys at the LEFT edge (between `first` and
    the smallest claimed key) are accepted by both implementations (DESIGN H10; TODO in
-   core/trie/proof.go:220) - the model leaves the verdict on exactly these claims open. *)
-EXTENDS Proof, Json
+   core/trie/proof.go:220) - the model leaves the verdict on exactly these claims open.
 
-CONSTANTS MBTLen, LeftEdgeChecked
+   Sweep steps (SQuery) enumerate, for one (first, last), EVERY claim of the contract's shapes (every subset of
+   the in-range keys withheld, each value altered, a key added inside / below / beyond the range, the empty
+   claim); the engine runs each of them with the proof nodes of every provenance (in-memory nodes of a hashed
+   trie, of a never hashed trie, of the database-loaded trie, nodes re-decoded from their encoding).  For trie2
+   and a model-key `first` each claim also carries the verdict of RangeProof.tla's transcription of the code as
+   it is (mv), which closes the verdicts the contract leaves open.  TQuery steps tamper one node of a range
+   proof (RangeProof.tla RTampers) under a true or singly falsified claim. *)
+EXTENDS RangeProof, Json
+
+CONSTANTS MBTLen, LeftEdgeChecked, SweepMax, SweepOnly, BuildLen
 VARIABLE hist
 mbtvars == <<vars, hist>>
 MBTInit == Init /\ hist = <<>>
@@ -155,6 +163,101 @@ EQueryLeft ==
     /\ res' = Err /\ UNCHANGED kv
     /\ hist' = Append(hist, [a |-> act', expect |-> IF later = {} THEN "accept" ELSE "reject", more |-> FALSE, pres |-> PresProj])
 
+\* ---- sweeps: every claim shape over one (first, last)
+SibPresent(k) == kv[FlipAt(k, H)] # 0
+PosClass(k) == IF kv[k] = 0 THEN "absent" ELSE IF SibPresent(k) THEN "leaf-under-bin" ELSE "leaf-at-edge"
+FirstClass(f) == IF f.j = H THEN PosClass(f.k) ELSE "in-edge-" \o f.dir
+MaxKeyOf(S) == CHOOSE k \in S : \A x \in S : Leq(x, k)
+OmitShape(f, T, last, om) ==
+  LET fk == IF f.j = H /\ kv[f.k] # 0 THEN {f.k} ELSE {} IN
+  IF om = {} THEN "true"
+  ELSE IF fk \subseteq om /\ fk # {} THEN (IF om = fk THEN "omit-first-only" ELSE IF om = T \ {last} THEN "omit-all-but-last" ELSE "omit-first-and-some")
+  ELSE IF om = (T \ {last}) \ fk THEN (IF fk = {} THEN "omit-all-but-last" ELSE "omit-interior-all")
+  ELSE "omit-interior-some"
+\* the verdict of the transcription of the code as it is (trie2, `first` a model key): "accept+" (has more) |
+\* "accept-" | "reject" | "panic"; "" when the transcription does not apply
+MV(impl, f, claim) ==
+  IF impl # "trie2" \/ f.j # H THEN ""
+  ELSE LET cl == SortPairs(claim)
+           last == IF claim = {} THEN f.k ELSE cl[Len(cl)].k
+           o == VRange(Root(kv), f.k, cl, RProof(kv, f.k, last, TRUE), FALSE) IN
+       IF o.r = "accept" THEN (IF o.more THEN "accept+" ELSE "accept-") ELSE o.r
+SClaim(impl, f, last, m, claim, cls, om) ==
+  LET rl == IF claim = {} THEN last ELSE MaxKeyOf({p.k : p \in claim}) IN
+  [m |-> m, claim |-> claim, expect |-> Expect(impl, f, last, [cls |-> cls, om |-> om]),
+   more |-> (\E k \in PresentKeys(kv) : Less(rl, k)), mv |-> MV(impl, f, claim)]
+SweepClaims(impl, f, last) ==
+  LET T == RangeTrue(f, last) IN
+  {SClaim(impl, f, last, OmitShape(f, T, last, om), Pairs(T \ om), IF om = {} THEN "accept" ELSE "omit", om) : om \in SUBSET (T \ {last})}
+  \cup {SClaim(impl, f, last, "alter-value", Pairs(T \ {x}) \cup {[k |-> x, v |-> MaxV + 1]}, "reject", {}) : x \in T}
+  \cup {SClaim(impl, f, last, "add-inside", Pairs(T) \cup {[k |-> x, v |-> 1]}, "reject", {}) :
+          x \in {y \in Keys : kv[y] = 0 /\ GeF(y, f) /\ Less(y, last) /\ (f.j = H => y # f.k)}}
+  \cup {SClaim(impl, f, last, "add-below-absent", Pairs(T) \cup {[k |-> x, v |-> 1]}, "reject", {}) :
+          x \in R({y \in Keys : kv[y] = 0 /\ ~GeF(y, f)})}
+  \cup {SClaim(impl, f, last, "add-beyond", Pairs(RangeTrue(f, x)) \cup {[k |-> x, v |-> 1]}, "reject", {}) :
+          x \in R({y \in Keys : kv[y] = 0 /\ Less(last, y)})}
+  \cup {SClaim(impl, f, last, "claim-empty", {}, "reject", {})}
+SLater(f) == {k \in PresentKeys(kv) : GeF(k, f) /\ Cardinality(RangeTrue(f, k)) <= SweepMax}
+\* bias: 1 an existing key, 2 / 6 an existing key whose last-bit sibling exists (a leaf directly under a bottom-level
+\* binary node; 6: the right end too), 3 an absent model key, 4 / 5 any boundary incl. those inside an edge
+SCands(bias) ==
+  LET ex == {g \in Firsts(PresentKeys(kv)) : g.j = H}
+      c == {g \in (CASE bias = 1 -> ex
+                     [] bias \in {2, 6} -> {x \in ex : SibPresent(x.k)}
+                     [] bias = 3 -> {x \in Firsts(Keys \ PresentKeys(kv)) : x.j = H}
+                     [] bias = 4 -> Firsts(PresentKeys(kv))
+                     [] OTHER -> Firsts(Keys \cup Near)) : SLater(g) # {}} IN
+  IF c = {} THEN ex ELSE c
+SLasts(f, bias) ==
+  LET later == SLater(f)
+      big == {k \in later : Cardinality(RangeTrue(f, k)) >= 3}
+      sib == {k \in later : SibPresent(k)}
+      bigsib == big \cap sib IN
+  IF bias \in {3, 6} /\ bigsib # {} THEN bigsib
+  ELSE IF bias \in {3, 6} /\ sib # {} THEN sib
+  ELSE IF bias # 1 /\ big # {} THEN big ELSE later      \* bias 1: any length, single- and two-element ranges included
+SQuery ==
+  \E impl \in R(Impls), bias \in R(1..6) :
+    \E f \in R(SCands(bias)) :
+      \E last \in R(SLasts(f, bias)) :
+        /\ act' = [name |-> "Sweep", impl |-> impl, first |-> f, k |-> last]
+        /\ res' = Err /\ UNCHANGED kv
+        /\ hist' = Append(hist, [a |-> act', claims |-> SweepClaims(impl, f, last), fc |-> FirstClass(f), lc |-> PosClass(last),
+                                 pres |-> PresProj])
+
+\* ---- one tampered node of a range proof, under a true or singly falsified claim (`first` a model key)
+\* the proof set as the code holds it: one entry per key, Prove(first) first
+RECURSIVE DedupFrom(_, _, _)
+DedupFrom(acc, s, i) == IF i > Len(s) THEN acc
+                        ELSE DedupFrom(IF Has(acc, s[i].key) THEN acc ELSE Append(acc, s[i]), s, i + 1)
+RangeProofSet(impl, first, last) ==
+  DedupFrom(Prove(kv, impl, first, FALSE), IF first = last THEN <<>> ELSE Prove(kv, impl, last, FALSE), 1)
+IndexIn(pf, key) == CHOOSE i \in 1..Len(pf) : pf[i].key = key /\ \A j \in 1..(i - 1) : pf[j].key # key
+TQuery ==
+  \E impl \in R(Impls), w \in R(1..4) :
+   \E k \in R(IF w = 1 /\ PresentKeys(kv) # {} THEN PresentKeys(kv) ELSE Keys \cup Near \cup PresentKeys(kv)) :
+    \* w: 1 the single-element case, 2 the empty-claim case (neither recomputes the root), 3 / 4 any case
+    \E c \in R(LET all == TamperClaims(kv, k)
+                   pick == {x \in all : CaseOf(k, x) = (IF w = 1 THEN "single" ELSE "empty")} IN
+               IF w \in {1, 2} /\ pick # {} THEN pick ELSE all) :
+      LET p1 == Prove(kv, impl, k, FALSE)
+          p2 == Prove(kv, impl, c.last, FALSE)
+          pf == RangeProofSet(impl, k, c.last)
+          ok == {t \in RTampers(pf) : REnabled(pf, t)}
+          \* w odd: the node the boundary's path ends in (it holds the leaf / the divergence)
+          atEnd == {t \in ok : t.op # "none" /\ t.op # "drop" /\ t.i = Len(p1)} IN
+      \E tm \in R(IF w \in {1, 3} /\ atEnd # {} THEN atEnd ELSE ok) :
+        LET onFirst == tm.op = "none" \/ tm.i <= Len(p1)
+            o == IF impl = "trie2" THEN VRange(Root(kv), k, c.cl, Apply(pf, k, tm), FALSE) ELSE [r |-> ""] IN
+        /\ act' = [name |-> "RTamper", impl |-> impl, k |-> k, last |-> c.last, m |-> c.m, cl |-> c.cl, tm |-> tm,
+                   path |-> IF onFirst THEN "first" ELSE "last",
+                   idx |-> IF tm.op = "none" THEN 0 ELSE IF onFirst THEN tm.i ELSE IndexIn(p2, pf[tm.i].key),
+                   case |-> CaseOf(k, c)]
+        /\ res' = Err /\ UNCHANGED kv
+        /\ hist' = Append(hist, [a |-> act', holds |-> ClaimHolds(kv, k, c), more |-> MoreTrue(kv, c),
+                                 mv |-> IF o.r = "accept" THEN (IF o.more THEN "accept+" ELSE "accept-") ELSE o.r,
+                                 shape |-> Shape(p1), shape2 |-> Shape(p2), pres |-> PresProj])
+
 \* the whole trie without any proof (proof = nil): the claim must be the complete content
 WQuery ==
   \E impl \in R(Impls), cached \in R(BOOLEAN) :
@@ -174,7 +277,12 @@ PutStep ==
   /\ hist' = Append(hist, [a |-> act', pres |-> {[k |-> x, v |-> kv'[x]] : x \in PresentKeys(kv')}])
 
 \* build first (a few keys), then query
-Step == IF Len(hist) < 5 THEN PutStep
+Step == IF Len(hist) < BuildLen THEN PutStep
+        ELSE IF SweepOnly
+        \* (TLC's simulator evaluates every disjunct of a step before it picks one: the expensive sweep / tamper
+        \*  steps are chosen by a random selector first and live in simulation runs of their own)
+        THEN IF PresentKeys(kv) = {} THEN PutStep
+             ELSE \E w \in R(1..2) : IF w = 2 THEN TQuery ELSE SQuery
         ELSE \/ MQuery \/ MQuery \/ MQuery \/ RQuery \/ RQuery \/ GQuery \/ GQuery \/ EQuery \/ EQueryLeft \/ WQuery \/ PutStep
 
 Emit == /\ PrintT(ToJson(hist))
